@@ -269,6 +269,49 @@ static int contract_obj(printer_t f, struct tsn_ctx *c, const char *what)
   return bad;
 }
 
+/* post-load modification history: ops separated by '|'
+ *   g TYPE FIRST LAST [DM]   hwloc_topology_insert_group_object of the union of objects FIRST..LAST of TYPE
+ *   r CPUSET FLAGS           hwloc_topology_restrict (CPUSET in hwloc_bitmap_sscanf syntax)
+ *   dg TYPE K                latency matrix over all objects of TYPE, blocks of K close objects, added with ADD_FLAG_GROUP
+ * prints one "hist ..." line per op */
+#include "hwloc/distances.h"
+static void apply_history(hwloc_topology_t t, const char *hist, int quiet)
+{
+#define HPRINTF(...) do { if (!quiet) printf(__VA_ARGS__); } while (0)
+  char *copy = strdup(hist), *op, *save;
+  for (op = strtok_r(copy, "|", &save); op; op = strtok_r(NULL, "|", &save)) {
+    unsigned ty, a, b, dm = 0; unsigned long fl; char set[1024];
+    while (*op == ' ') op++;
+    if (sscanf(op, "g %u %u %u %u", &ty, &a, &b, &dm) >= 3) {
+      hwloc_obj_t g = hwloc_topology_alloc_group_object(t), res; unsigned k, n = 0;
+      if (!g) { HPRINTF("hist g alloc-failed\n"); continue; }
+      for (k = a; k <= b; k++) { hwloc_obj_t o = hwloc_get_obj_by_type(t, (hwloc_obj_type_t) ty, k); if (o && o->cpuset) { hwloc_obj_add_other_obj_sets(g, o); n++; } }
+      g->attr->group.dont_merge = (unsigned char) (dm != 0);
+      res = hwloc_topology_insert_group_object(t, g);
+      HPRINTF("hist g %u %u-%u members=%u %s\n", ty, a, b, n, !res ? "null" : res == g ? "inserted" : "merged");
+    } else if (sscanf(op, "r %1023s %lu", set, &fl) == 2) {
+      hwloc_bitmap_t bm = hwloc_bitmap_alloc(); int rc;
+      hwloc_bitmap_sscanf(bm, set);
+      rc = hwloc_topology_restrict(t, bm, fl);
+      HPRINTF("hist r %s %lu rc=%d\n", set, fl, rc);
+      hwloc_bitmap_free(bm);
+    } else if (sscanf(op, "dg %u %u", &ty, &a) == 2 && a) {
+      unsigned n = (unsigned) hwloc_get_nbobjs_by_type(t, (hwloc_obj_type_t) ty), i, j; int rc = -1;
+      if (n >= 2 && n <= 64) {
+        hwloc_obj_t *objs = malloc(n * sizeof *objs); hwloc_uint64_t *v = malloc(n * n * sizeof *v);
+        hwloc_distances_add_handle_t h;
+        for (i = 0; i < n; i++) objs[i] = hwloc_get_obj_by_type(t, (hwloc_obj_type_t) ty, i);
+        for (i = 0; i < n; i++) for (j = 0; j < n; j++) v[i * n + j] = i == j ? 10 : (i / a == j / a ? 20 : 40);
+        h = hwloc_distances_add_create(t, NULL, HWLOC_DISTANCES_KIND_FROM_USER | HWLOC_DISTANCES_KIND_VALUE_LATENCY, 0);
+        if (h && hwloc_distances_add_values(t, h, n, objs, v, 0) == 0) rc = hwloc_distances_add_commit(t, h, HWLOC_DISTANCES_ADD_FLAG_GROUP);
+        free(objs); free(v);
+      }
+      HPRINTF("hist dg %u %u n=%u rc=%d\n", ty, a, n, rc);
+    } else HPRINTF("hist BAD %s\n", op);
+  }
+  free(copy);
+}
+
 static void do_topo(char *line)
 {
   hwloc_topology_t t; int depth, d, err; hwloc_obj_t o; size_t n = strlen(line);
@@ -276,14 +319,19 @@ static void do_topo(char *line)
                                  HWLOC_TYPE_DEPTH_PCI_DEVICE, HWLOC_TYPE_DEPTH_OS_DEVICE, HWLOC_TYPE_DEPTH_MISC };
   static const unsigned long fl[] = { 0, 2, 4, 6, 1, 8, 16, 40, 63 };
   unsigned long nobj = 0, nbad = 0; unsigned i, fi;
+  char *hist; static char src[1 << 16];
   while (n && (line[n-1] == '\n')) line[--n] = 0;
+  hist = strchr(line, '|');                       /* "topo <source> | op | op ..." */
+  snprintf(src, sizeof src, "%s", line);
+  if (hist) { size_t k = (size_t) (hist - line); while (k && src[k-1] == ' ') k--; src[k] = 0; }
   hwloc_topology_init(&t);
   hwloc_topology_set_all_types_filter(t, HWLOC_TYPE_FILTER_KEEP_ALL);
-  if (!strncmp(line, "topo xml ", 9)) err = hwloc_topology_set_xml(t, line + 9);
-  else if (!strncmp(line, "topo synthetic ", 15)) err = hwloc_topology_set_synthetic(t, line + 15);
+  if (!strncmp(src, "topo xml ", 9)) err = hwloc_topology_set_xml(t, src + 9);
+  else if (!strncmp(src, "topo synthetic ", 15)) err = hwloc_topology_set_synthetic(t, src + 15);
   else err = -1;
   if (err < 0 || hwloc_topology_load(t) < 0) { printf("%s LOADFAIL\n", line); hwloc_topology_destroy(t); return; }
   printf("%s LOADED\n", line);
+  if (hist) apply_history(t, hist + 1, 0);
   depth = hwloc_topology_get_depth(t);
   for (i = 0; i < (unsigned) depth + 6; i++) {
     d = i < (unsigned) depth ? (int) i : special[i - depth];
@@ -321,6 +369,16 @@ static void do_topo(char *line)
         if (ok && ty == HWLOC_OBJ_BRIDGE) ok = a.bridge.upstream_type == o->attr->bridge.upstream_type && a.bridge.downstream_type == o->attr->bridge.downstream_type;
         if (ok && ty == HWLOC_OBJ_OS_DEVICE) ok = a.osdev.types == (o->attr->osdev.types & known_os_mask());   /* bits without a name cannot be printed */
         if (!ok) { printf("robj roundtrip gp=%llu type=%u flags=%d BAD text=%s r=%d\n", (unsigned long long) o->gp_index, (unsigned) o->type, fi ? 2 : 0, b, r); nbad++; }
+        else {
+          /* the text designates the level the object lives in */
+          int dd = -99; hwloc_obj_type_t ty2;
+          /* (a non-Group type living at several depths of an asymmetric topology has no text per level: MULTIPLE) */
+          if (hwloc_type_sscanf_as_depth(b, &ty2, t, &dd) < 0
+              || (dd != o->depth && !(dd == HWLOC_TYPE_DEPTH_MULTIPLE && o->type != HWLOC_OBJ_GROUP && hwloc_get_type_depth(t, o->type) == HWLOC_TYPE_DEPTH_MULTIPLE))) {
+            printf("robj leveldepth gp=%llu type=%u flags=%d BAD text=%s designates depth %d, the object is at depth %d\n",
+                   (unsigned long long) o->gp_index, (unsigned) o->type, fi ? 2 : 0, b, dd, o->depth); nbad++;
+          }
+        }
       }
     }
   }
@@ -369,10 +427,17 @@ static hwloc_topology_t get_topo(const char *src)
   hwloc_topology_init(&cur_topo);
   hwloc_topology_set_all_types_filter(cur_topo, HWLOC_TYPE_FILTER_KEEP_ALL);
   snprintf(tmp, sizeof tmp, "%s", src);
+  { char *h = strchr(tmp, '|'); if (h) *h = 0; }
   if (!strncmp(tmp, "synthetic_", 10)) { for (p = tmp; *p; p++) if (*p == '_') *p = ' '; err = hwloc_topology_set_synthetic(cur_topo, tmp + 10); }
   else if (!strncmp(tmp, "xml_", 4)) err = hwloc_topology_set_xml(cur_topo, tmp + 4);
   else err = -1;
   if (err < 0 || hwloc_topology_load(cur_topo) < 0) { hwloc_topology_destroy(cur_topo); cur_topo = NULL; cur_src[0] = 0; return NULL; }
+  if (strchr(src, '|')) {      /* post-load history, blanks written as '_' */
+    char *h = strdup(strchr(src, '|') + 1), *q;
+    for (q = h; *q; q++) if (*q == '_') *q = ' ';
+    apply_history(cur_topo, h, 1);     /* the "hist" lines are not part of the lv/sad/gtd answers */
+    free(h);
+  }
   snprintf(cur_src, sizeof cur_src, "%s", src);
   return cur_topo;
 }
